@@ -236,6 +236,7 @@ class C21(Check):
         env["WILD_VALIDATE_OUTPUT"] = "0"
         return hist.run_all(cmd, cwd=w, env=env, timeout=300)
 
+    @hist.retry_environmental
     def run_case(self, case, ctx):
         w = os.path.join(ctx.dir, "w")
         os.makedirs(w)
